@@ -40,6 +40,7 @@ def find_shortcut(val):
 
 def run(repo, rep):
     alg.reset()
+    common.state_rule(repo, rep, [('geodepy.geodesy', 'vincinv')])
     common.typecheck_rules(repo, rep)
     rep.trust('sv/alg.py exact normal forms; generator independence modulo the rewrite rules applied')
     rep.trust('reference equations: GDA2020 technical manual v1.x eq. 71-85 (Vincenty 1975)')
